@@ -45,6 +45,9 @@ inductive Kind where
   | enum (members : List (String × PyVal))
   /-- `decimal.Decimal` -/
   | decimal
+  /-- a class whose constructor raises an exception of class `exc` whatever it is given (a `TypeError` is
+      turned into `TranslationError` by `load`, every other class propagates): no instance of it exists -/
+  | raising (exc : String)
 deriving Repr, Inhabited
 
 structure ClassDef where
@@ -181,6 +184,9 @@ def valueIn (env : ClassEnv) (v : PyVal) (ignoreList : List PyVal) : PyM Bool :=
   if isDecimalObj env v && !ignoreList.isEmpty then raise "Unmodelled" (.str "Decimal.__eq__")
   else pure (ignoreList.any (fun e => pyEq e v))
 
+/-- `key in ignore_list` for an attribute name: Python `==` of each entry with the string. -/
+def nameIgnored (ignoreList : List PyVal) (n : String) : Bool := ignoreList.any (fun e => pyEq e (.str n))
+
 def namesDistinct : List String → Bool
   | [] => true
   | n :: ns => !ns.contains n && namesDistinct ns
@@ -234,8 +240,16 @@ mutual
                 if as.contains jcKey || !namesDistinct as then raise "Unmodelled" (.str "attrs overwrite __jsonclass__")
                 else
                   let params := if byDict then PyVal.dict ((ps.zip pvs).map fun (k, x) => (.str k, x)) else .list pvs
-                  pure (.dict ((.str jcKey, .list [.str jsonClass, params]) ::
-                                (as.zip avs).map fun (k, x) => (PyVal.str k, x)))
+                  -- ignore_list = getattr(obj, ignore_attribute, []) + ignore
+                  match getAttrD d fs ia (.list []) with
+                  | .list own =>
+                    -- return_obj.update((key, value) for key, value in attrs.items() if key not in ignore_list):
+                    -- the values are emitted as the method returned them (no recursive dump, no handler, no test
+                    -- of the value against the ignore list)
+                    pure (.dict ((.str jcKey, .list [.str jsonClass, params]) ::
+                                  ((as.zip avs).filter fun (k, _) => !nameIgnored (own ++ ig) k).map
+                                    fun (k, x) => (PyVal.str k, x)))
+                  | _ => raise "TypeError" (.str "ignore attribute is not a list")
               | _, _ => raise "AttributeError"
             else dumpBean X sm ia ig d c jsonClass fs
           | .decimal =>
@@ -249,6 +263,7 @@ mutual
             | some x => pure (.dict [(.str jcKey, .list [.str jsonClass, .list [x]])])
             | Option.none => raise "Unmodelled" (.str "enum member without value")
           | .bean _ => dumpBean X sm ia ig d c jsonClass fs
+          | .raising _ => raise "Unmodelled" (.str "instance of a class that cannot be instantiated")
   /-- The `else:` branch of `dump`: `[]` as constructor arguments plus the filtered fields. -/
   def dumpBean (X : DumpCtx) (sm ia : String) (ig : List PyVal) (d : ClassDef) (c jsonClass : String)
       (fs : List (String × PyVal)) : PyM PyVal :=
@@ -337,10 +352,17 @@ def splitLastDot : List Char → Option (List Char × List Char)
     | some (a, b) => some (c :: a, b)
     | Option.none => if c == '.' then some ([], cs) else Option.none
 
+/-- The module the *receiving* process runs as `__main__`.  The classes of the environment whose module is
+    `__main__` are the classes "not importable by module path" of the property: `dump` names them without a
+    module and only the local class table (`Config.classes`) resolves them — the receiver's own `__main__`
+    module exists (it always does) but does not define them. -/
+def mainModule : String := "__main__"
+
 def moduleExists (W : World) (m : String) : Bool :=
-  W.mods.contains m || W.env.any (fun e => e.2.module == m)
+  m == mainModule || W.mods.contains m || W.env.any (fun e => e.2.module == m)
 
 def findInModule (env : ClassEnv) (m n : String) : Option String :=
+  if m == mainModule then Option.none else
   match env.find? (fun e => e.2.module == m && e.2.name == n) with
   | some e => some e.1
   | Option.none => Option.none
@@ -436,6 +458,14 @@ def construct (env : ClassEnv) (c : String) (d : ClassDef) (params : PyVal) : Py
     | .dict [] => pure (.obj c [("str", .str "0")])
     | .list [.str s] => if canonDecimal s then pure (.obj c [("str", .str s)]) else raise "Unmodelled" (.str "Decimal literal")
     | _ => raise "Unmodelled" (.str "Decimal arguments")
+  | .raising exc =>
+    -- `except TypeError as ex: raise TranslationError(…)`; anything else propagates
+    if exc == "TypeError" then te else raise exc
+
+/-- `d[k]` on a dict for a hashable key: the entry whose key is `==` to `k`. -/
+def lookupKey (k : PyVal) : List (PyVal × PyVal) → Option PyVal
+  | [] => Option.none
+  | (k', v) :: rest => if pyEq k' k then some v else lookupKey k rest
 
 /-- `x[0]`, `x[1]` as Python evaluates `obj["__jsonclass__"][0]` then `[1]`. -/
 def index01 (d : PyVal) : PyM (PyVal × PyVal) :=
@@ -447,7 +477,14 @@ def index01 (d : PyVal) : PyM (PyVal × PyVal) :=
   | .str s => match s.toList with
     | a :: b :: _ => pure (.str (String.singleton a), .str (String.singleton b))
     | _ => raise "IndexError"
-  | .dict kvs => if allStr kvs then raise "KeyError" else raise "Unmodelled" (.str "non-string key lookup")
+  | .dict kvs =>
+    -- `d[0]` then `d[1]` on a dict: keys equal to the integers (`0 == False == 0.0`); a dict decoded from JSON
+    -- has string keys only and raises KeyError
+    match lookupKey (.int 0) kvs with
+    | Option.none => raise "KeyError"
+    | some a => match lookupKey (.int 1) kvs with
+      | Option.none => raise "KeyError"
+      | some b => pure (a, b)
   | _ => raise "TypeError" (.str "not subscriptable")
 
 /-- From `orig_module_name = obj["__jsonclass__"][0]` to the instantiation: result and effects. -/
@@ -484,6 +521,7 @@ def setAttr (env : ClassEnv) (o : PyVal) (k v : PyVal) : PyM PyVal :=
         match d.kind with
         | .enum _ => raise "Unmodelled" (.str "setattr on an enum member")
         | .decimal => raise "Unmodelled" (.str "setattr on a Decimal")
+        | .raising _ => raise "Unmodelled" (.str "instance of a class that cannot be instantiated")
         | _ => if canSet env c n then pure (.obj c (setField n v fs)) else raise "AttributeError"
       | Option.none => raise "Unmodelled" (.str "unknown class")
   | .obj _ _, _ => raise "TypeError" (.str "attribute name must be string")
@@ -613,8 +651,9 @@ def restoresInFinally : Bool := true
     `dumpList`, `dumpKVs` and `dumpFields` call `dump X sm ia ig` with the arguments they were given. -/
 def dumpCallSites : List (String × Bool) := [("list", true), ("dict", true), ("field", true)]
 
-/-- `dump` looks `type(obj)` up in `config.serialize_handlers` before every `isinstance` test and returns a
-    non-`None` handler's result as it is: the outer `match handlerFor …` of the model's `dump`. -/
+/-- `dump` looks `type(obj)` up in `config.serialize_handlers` as its first statement after the normalisation of
+    its arguments and returns a non-`None` handler's result as it is: the outer `match handlerFor …` of the model's
+    `dump`. -/
 def handlerLookupFirst : Bool := true
 
 /-- What the handler is called with: `X.H h v sm ia ig` (the configuration is the context `X`). -/
@@ -627,13 +666,19 @@ def knownTypesIncludeHandlers : Bool := true
     fields by `difference_update` before the loop, `attr_value not in ignore_list` in the field test). -/
 def ignoreAssembly : Bool × Bool × Bool := (true, true, true)
 
+/-- The `if hasattr(obj, serialize_method):` branch: `ignore_list = getattr(obj, ignore_attribute, []) + ignore`
+    and only the returned attributes with `key not in ignore_list` are emitted (the `filter` of the model's
+    serial branch). -/
+def serialIgnoreFilter : Bool := true
+
 /-- `dumpTop`: `x or config.x` for the two names, `ignore or []`. -/
 def dumpDefaults : Bool × Bool × Bool := (true, true, true)
 
-/-- The attribute names `dump` reads from the object: `hasattr/getattr(obj, serialize_method)`,
-    `getattr(obj, ignore_attribute, [])`, `getattr(obj, attr_name)` — variables, never a literal name. -/
+/-- The attribute names `dump` reads from the object (as a sorted set): `hasattr/getattr(obj, serialize_method)`,
+    `getattr(obj, ignore_attribute, [])` (both the serialisation-method branch and the field-wise branch),
+    `getattr(obj, attr_name)` — variables, never a literal name. -/
 def attributeNamesConsulted : List String :=
-  ["hasattr:serialize_method", "getattr:serialize_method", "getattr:ignore_attribute", "getattr:<var>"]
+  ["getattr:<var>", "getattr:ignore_attribute", "getattr:serialize_method", "hasattr:serialize_method"]
 
 /-- `load`: the empty-name and invalid-character tests precede `__import__` (`instantiate` tests `truthy` and
     `validName` before `resolveClass`). -/
